@@ -261,6 +261,10 @@ func init() {
 							Input: "param ...xs; xs[0] = xs[0] + \"!\"; xs = append(xs, 1); return xs   (conc.HostArgsProbe)", Sig: "C08:host-args-shared"})
 					}
 					c.Count("host-args-probe")
+					if pr := conc.NilGlobalsProbe(); pr != "" {
+						c.Violation(PropViolation{Property: "C08", What: "VMs that are run without a globals map share one: " + pr,
+							Input: "global g; old := g; g = (g || 0) + 1; return [old, g]   run with nil globals (conc.NilGlobalsProbe)", Sig: "C08:nil-globals-shared"})
+					}
 				}
 				if leak := conc.PrivacyProbe("strings", concurrent); leak != "" {
 					c.Violation(PropViolation{Property: "C08", What: "a builtin module value is shared between VMs: " + leak,
